@@ -27,6 +27,7 @@ EXPLANATION = (
     "spec != 0x1507, length != 48+q+b}: a new rejection (e.g. of reserved bits or unknown format codes) is reported. The rules "
     "are value-independent, so they hold for all field values and capacity relations. (accept-guards, shared with C02) the parse half of the round trip: Message::from_slice and MessageView::from_slice accept only behind a successful Header::decode and 48+q+b <= len(buf), and what they return as query is buf[48..48+q] and as body buf[48+q..48+q+b] (payload-slots: each range is traced into its own slot of Message::new / the returned view, so swapped or shifted payloads are reported). (stream-fills-frame, shared with C02) the read side: a frame read from a stream into a reusable buffer leaves the buffer exactly the frame (len == 48+q+b, filled by read_exact). Not decided: what the OS / tungstenite "
     "does with the bytes afterwards."
+    ' (length-formula, closed over constructions) every Message literal outside Message::new has header lengths provably equal to the lengths of the vectors it is paired with, or copies one source field for field; every store to or mutable borrow of Message.query / Message.body is followed by a store to the matching header length.'
 )
 ASSUMPTIONS = ["by-value iteration over a fixed array yields its elements once each in index order", "to_le_bytes/from_le_bytes are inverse; Vec::extend_from_slice/append/copy_within/copy_from_slice have std semantics",
                "every in-crate Message is well formed (header lengths agree with the vectors), which MessageBuilder::build establishes (length-formula)"]
